@@ -61,6 +61,12 @@ def make_executor(prog, harness, opts=None):
     elif (opts or {}).get('cuts') == 'add':
         import cuts
         ex.cuts['(%s.Decimal).add' % prog.pkg] = cuts.cut_add
+    elif (opts or {}).get('cuts') == 'pow':
+        import cuts
+        for callee, cutname in cuts.REDUCE_CUTS.items():
+            ex.cuts[callee] = getattr(cuts, cutname)
+        ex.cuts['(%s.decomposed192).log' % prog.pkg] = cuts.cut_end_path
+        ex.cuts['(%s.Decimal).QuoWithMode' % prog.pkg] = cuts.cut_uf_decimal
     elif isinstance((opts or {}).get('cuts'), (list, tuple)):
         import cuts
         for name in opts['cuts']:
